@@ -199,6 +199,46 @@ def handle (op : String) (ins outs : List J) : Verdict :=
           [("dot-output", go.map Char.ofNat == want, s!"go {String.ofList (go.map Char.ofNat)}")]
       | none => .badOp "dot: labels"
     | _, _, _, _ => .badOp "dot: parse"
+  | "dot", [gJ, nameJ, labelsJ, nattrJ, eattrJ], [outJ] =>
+    -- with attribute callbacks: per node a list of [name, kind, value]; per node per edge likewise
+    let parseAttr (j : J) : Option (List Char × List Char) :=
+      match j with
+      | .arr [nm, .atom k, v] => do
+        let name := (← nm.nats?).map Char.ofNat
+        if k == "s" then pure (name, dotEscape ((← v.nats?).map Char.ofNat))
+        else if k == "i" then pure (name, (toString (← v.int?)).toList)
+        else pure (name, (← v.nats?).map Char.ofNat)
+      | _ => none
+    let parseAttrs (j : J) : Option (List (List Char × List Char)) := j.list? >>= (·.mapM parseAttr)
+    let fmtAttrs (as : List (List Char × List Char)) : List Char :=
+      if as.isEmpty then [] else
+      " [".toList ++ (",".toList).intercalate (as.map fun (n, v) => n ++ ['='] ++ v) ++ "]".toList
+    match parseG gJ, nameJ.nats?, optList labelsJ, optList nattrJ, optList eattrJ, outJ.nats? with
+    | some g, some name, some lopt, some nopt, some eopt, some go =>
+      let labels : Option (List (List Char)) := match lopt with
+        | none => some ((List.range g.size).map fun i => (toString i).toList)
+        | some j => (j.natss?).map fun ls => ls.map fun l => l.map Char.ofNat
+      let nattrs : Option (List (List (List Char × List Char))) := match nopt with
+        | none => some ((List.range g.size).map fun _ => [])
+        | some j => j.list? >>= (·.mapM parseAttrs)
+      let eattrs : Option (List (List (List (List Char × List Char)))) := match eopt with
+        | none => some ((List.range g.size).map fun i => (out g i).map fun _ => [])
+        | some j => j.list? >>= (·.mapM fun nd => nd.list? >>= (·.mapM parseAttrs))
+      match labels, nattrs, eattrs with
+      | some labels, some nattrs, some eattrs =>
+        let hdr := "digraph ".toList ++ dotEscape (name.map Char.ofNat) ++ " {\n".toList
+        let body := (List.range g.size).flatMap fun i =>
+          let na := nattrs.getD i []
+          -- the default label is added when the caller's list has no attribute named `label`
+          let na' := if na.any (fun (n, _) => n == "label".toList) then na else na ++ [("label".toList, dotEscape (labels.getD i []))]
+          (s!"n{i}").toList ++ fmtAttrs na' ++ ";\n".toList ++
+          (((out g i).zip (List.range (out g i).length)).flatMap fun (o, e) =>
+            (s!"n{i} -> n{o}").toList ++ fmtAttrs ((eattrs.getD i []).getD e []) ++ ";\n".toList)
+        let want := hdr ++ body ++ "}\n".toList
+        verdictOf ((if g.size ≥ 2 then "nt " else "tr ") ++ sizeTag g.size ++ " attrs")
+          [("dot-output", go.map Char.ofNat == want, s!"go {String.ofList (go.map Char.ofNat)}")]
+      | _, _, _ => .badOp "dot: attrs"
+    | _, _, _, _, _, _ => .badOp "dot: parse"
   | "idom", [gJ, rJ], [outJ] =>
     match parseG gJ, rJ.nat?, outJ.ints? with
     | some g, some r, some go =>
